@@ -8,21 +8,21 @@
 (* compared with the specification's (C->S): harness/drivers/contour_graph.py *)
 (***************************************************************************)
 EXTENDS ContourOps
-CONSTANT MaxN, MaxDepth
+CONSTANT MaxN, MaxDepth, Gap      \* Gap: spacing of the initial points, a power of two > 2^(MaxDepth+1) so that repeated midpoints stay distinct
 VARIABLES pc, pdepth
 pvars == <<pc, pdepth>>
 PLabels(c) == <<At(c.p, c.s), At(c.p, c.e)>>
 Dir(p) == IF p[2] > p[1] THEN 1 ELSE -1
 \* where a new point goes so that the contour stays monotone (the real points lie on a straight flux surface)
-InsertVal(p, i) == IF i <= 0 THEN p[1] - 4 * Dir(p) ELSE IF i >= Len(p) THEN p[Len(p)] + 4 * Dir(p) ELSE (p[i] + p[i + 1]) \div 2
+InsertVal(p, i) == IF i <= 0 THEN p[1] - (Gap \div 4) * Dir(p) ELSE IF i >= Len(p) THEN p[Len(p)] + (Gap \div 4) * Dir(p) ELSE (p[i] + p[i + 1]) \div 2
 PyIndex(p, index) == IF index < 0 THEN (IF index + Len(p) < 0 THEN 0 ELSE index + Len(p)) ELSE IF index > Len(p) THEN Len(p) ELSE index
 PInit == \E n \in 4..MaxN : \E s0 \in 0..(n - 1) : \E e0 \in (-n)..(n - 1) :
             /\ Norm([k \in 1..n |-> k], s0) < Norm([k \in 1..n |-> k], e0)
-            /\ pc = Rec([k \in 1..n |-> 16 * k], s0, e0) /\ pdepth = 0
+            /\ pc = Rec([k \in 1..n |-> Gap * k], s0, e0) /\ pdepth = 0
 PStep(c2) == pc' = c2 /\ pdepth' = pdepth + 1
 DoInsert(i) == PStep(PInsert(pc, i, InsertVal(pc.p, PyIndex(pc.p, i))))
-DoExtendLower == PStep(PExtendLower(pc, pc.p[1] - 16 * Dir(pc.p)))
-DoExtendUpper == PStep(PExtendUpper(pc, pc.p[Len(pc.p)] + 16 * Dir(pc.p)))
+DoExtendLower == PStep(PExtendLower(pc, pc.p[1] - Gap * Dir(pc.p)))
+DoExtendUpper == PStep(PExtendUpper(pc, pc.p[Len(pc.p)] + Gap * Dir(pc.p)))
 \* reverse() computes len-1-endInd: only meaningful for a non-negative endInd (DESIGN.md 11.11)
 DoReverse == pc.e >= 0 /\ PStep(PReverse(pc))
 PNext == /\ pdepth < MaxDepth
